@@ -69,7 +69,8 @@ class TlcResult:
 
 def render_cfg(spec: str = "Spec", constants: dict | None = None, invariants=(), properties=(),
                constraint=(), action_constraint=(), symmetry: str | None = None, view: str | None = None,
-               deadlock: bool = False, postcondition: str | None = None, init_next: tuple | None = None) -> str:
+               deadlock: bool = False, postcondition: str | None = None, init_next: tuple | None = None,
+               overrides: dict | None = None) -> str:
     lines = []
     if init_next:
         lines += [f"INIT {init_next[0]}", f"NEXT {init_next[1]}"]
@@ -79,6 +80,11 @@ def render_cfg(spec: str = "Spec", constants: dict | None = None, invariants=(),
         lines.append("CONSTANTS")
         for k, v in constants.items():
             lines.append(f"  {k} = {tla_value(v)}")
+    if overrides:
+        if not constants:
+            lines.append("CONSTANTS")
+        for k, v in overrides.items():
+            lines.append(f"  {k} <- {v}")
     for i in invariants:
         lines.append(f"INVARIANT {i}")
     for p in properties:
@@ -238,6 +244,13 @@ def _parse_counterexample(out: str) -> list:
             else:
                 cur[1].append(line)
     return [(a, "\n".join(b)) for a, b in res]
+
+
+def wrap_module(workdir: Path, base: str, name: str, defs: dict[str, str], extends: str = "TLC") -> str:
+    """Write `name`.tla = EXTENDS base + definitions (for constants too complex for a cfg: use overrides K <- Def)."""
+    body = "\n".join(f"{k} == {v}" for k, v in defs.items())
+    (workdir / f"{name}.tla").write_text(f"---- MODULE {name} ----\nEXTENDS {base}, {extends}\n{body}\n====\n")
+    return name
 
 
 def sany(workdir: Path, module: str) -> None:
